@@ -37,7 +37,9 @@ MENU = ['role:admin', 'role:member', 'rule:svc:base', 'rule:nope',
         'project_id:%(target.project.id)s', 'not rule:nope',
         # checks that read the token's own fields as they stand
         'roles:Admin', 'roles:admin', 'user.name:user',
-        'project.domain.id:d0', 'methods:password']
+        'project.domain.id:d0', 'methods:password',
+        # a literal outside the Basic Multilingual Plane against the target
+        "'\U0001f680-\u00e9':%(label)s"]
 DEFAULTS = [None, '!', 'role:admin']
 BOUNDS = {'quick': dict(menu2=8), 'thorough': dict(menu2=len(MENU))}
 
@@ -77,6 +79,9 @@ TARGETS = {
     # target files that flatten to an empty mapping are still targets
     'empty': {},
     'empty-nested': {'target': {}, 'other': {'deep': {}}},
+    # values JSON writes with \u escapes (surrogate pairs included)
+    'astral': {'label': '\U0001f680-\u00e9', 'project_id': 'p1',
+               'user_id': 'u1'},
 }
 REQUESTS = [None, 'svc:get', 'svc:nope', 'plain']
 
